@@ -212,8 +212,11 @@ class SSHKnownHosts:
             addr = f'[{addr}]:{port}' if addr else ''
 
         matches = []
-        matches += self._exact_entries.get(host, [])
-        matches += self._exact_entries.get(addr, [])
+        if host:
+            matches += self._exact_entries.get(host, [])
+
+        if addr:
+            matches += self._exact_entries.get(addr, [])
         matches += (match for (entry, match) in self._pattern_entries
                     if entry.matches(host, addr, ip))
 
